@@ -20,8 +20,8 @@ TIERS = {
     "C10": T(500, 6000, flavour="asanfn", flavours=["tsan"], extra="tsan",
              tsan={"quick": {"cases": 40, "workers": 8, "size": 70}, "thorough": {"cases": 500, "workers": 16, "size": 100}}),
     "C11": T(1500, 12000, global_lock_order=True),
-    "C12": T(2500, 40000),
-    "C13": T(1200, 12000),
+    "C12": T(2500, 40000, extra="fuzz", fuzz={"quick": {"workers": 8, "runs": 5000}, "thorough": {"workers": 16, "runs": 400000}}),
+    "C13": T(1200, 12000, extra="fuzz", fuzz={"quick": {"workers": 8, "runs": 3000}, "thorough": {"workers": 16, "runs": 200000}}),
     "C14": T(1500, 12000),
     "C15": T(900, 15000),
     "C16": T(800, 10000),
